@@ -163,3 +163,35 @@ class SignerVersionInit(Contract):
             return not (is_hex(hash) and len(unhex(hash)) == 32) or iteration < 0 or iteration >= 65536
         return True
     raises = {"ValueError": Exc(args=[STR_], post=[refused])}
+
+
+# ---- save / load: what is written is what the constructors read back ----------------------------------------------
+SIGVER = OBJ("admin.signer_authorization:SignerVersion", _hash=STR_, _iteration=INT_)
+SIGAUTH = OBJ("admin.signer_authorization:SignerAuthorization", _signer_version=SIGVER, _signatures=LIST(STR_))
+
+
+@contract("admin/signer_authorization.py", "SignerVersion.to_dict", serves=["C17"])
+class SignerVersionToDict(Contract):
+    self_spec = SIGVER
+    params = {}
+    pure = True
+
+    def writes_hash_and_iteration(self, result): return result["hash"] == self._hash and result["iteration"] == self._iteration
+    ensures = [writes_hash_and_iteration]
+
+
+@contract("admin/signer_authorization.py", "SignerAuthorization.to_dict", serves=["C17"])
+class SignerAuthorizationToDict(Contract):
+    """"authorization files survive a save/load cycle unchanged": what to_dict writes is exactly the version the signer
+    version and the signatures in order; from_jsonfile feeds the same three entries to the constructors (verified:
+    SignerVersion.__init__) - the JSON text and the file in between are json.dumps / json.loads (assumed)"""
+    self_spec = SIGAUTH
+    params = {}
+    pure = True
+    inline_callees = ("SignerVersion.to_dict",)
+
+    def writes_version_signer_and_signatures_in_order(self, result):
+        return (result["version"] == 1 and result["signer"]["hash"] == self._signer_version._hash
+                and result["signer"]["iteration"] == self._signer_version._iteration
+                and result["signatures"] == self._signatures)
+    ensures = [writes_version_signer_and_signatures_in_order]
